@@ -245,10 +245,16 @@ structure Disk where
   typ : Nat
   /-- `self.maybe_fat` -/
   fat : Option (Array Nat) := none
+  /-- variant bit (not a field of the Rust): `true` = `Directory::build_files` as written at the pinned HEAD, which
+  puts the volume-label entry into the map of files, so that a path resolves to the label (`get` fetches it as an
+  empty file, `delete` removes the label, `rename`/`lock` change it, `put` of that name is a duplicate);
+  `false` = repaired (`proposed_fixes/fat-label-not-a-file.diff`): the label is skipped.  The tie probes the real code. -/
+  labelFiles : Bool := true
   deriving Inhabited
 
 /-- `Disk::from_img(img, Some(boot))` after the boot sector has been written -/
-def Disk.ofImg (raw : Raw) (bpb : Bpb) : Disk := { raw := raw, bpb := bpb, typ := bpb.fatType, fat := none }
+def Disk.ofImg (raw : Raw) (bpb : Bpb) (labelFiles : Bool := true) : Disk :=
+  { raw := raw, bpb := bpb, typ := bpb.fatType, fat := none, labelFiles := labelFiles }
 
 def M (α : Type) : Type := Disk → R α × Disk
 
@@ -644,13 +650,15 @@ def FInfo.root : FInfo := { isRoot := true, directory := true }
 def FInfo.wild : FInfo := { wildcard := true, directory := true }
 
 /-- the loop of `build_files`: state = (bad names so far, map so far as an association list in entry order) -/
-def buildLoop : List Bytes → Nat → Nat → List (Bytes × FInfo) → R (List (Bytes × FInfo))
+def buildLoop (lf : Bool) : List Bytes → Nat → Nat → List (Bytes × FInfo) → R (List (Bytes × FInfo))
   | [], _, _, acc => .ok acc
   | e :: es, i, bad, acc =>
     match entryType e with
-    | .free => buildLoop es (i + 1) bad acc
+    | .free => buildLoop lf es (i + 1) bad acc
     | .freeAndNoMore => .ok acc
-    | _ =>
+    | t =>
+      -- repaired variant: `if etyp==EntryType::VolumeLabel { continue; }`
+      if t = .volumeLabel && !lf then buildLoop lf es (i + 1) bad acc else
       if bad > 2 then .error .syntax else
       match fileNameToSplit e with
       | none => .error .unmodelled
@@ -660,10 +668,13 @@ def buildLoop : List Bytes → Nat → Nat → List (Bytes × FInfo) → R (List
         let a := Entry.attr e
         let fi : FInfo := { idx := i, readOnly := (a &&& READ_ONLY) > 0, volumeId := (a &&& VOLUME_ID) > 0,
                             directory := (a &&& DIRECTORY) > 0, eof := Entry.fileSize e, cluster1 := some (Entry.cluster1Low e) }
-        buildLoop es (i + 1) (if isNameValid key then bad else bad + 1) (acc ++ [(key, fi)])
+        buildLoop lf es (i + 1) (if isNameValid key then bad else bad + 1) (acc ++ [(key, fi)])
 
-/-- `Directory::build_files` (FAT12/16) -/
-def buildFiles (dir : Directory) : R (List (Bytes × FInfo)) := buildLoop dir 0 0 []
+/-- `Directory::build_files` (FAT12/16); `lf` = the variant bit `Disk.labelFiles` -/
+def buildFiles (lf : Bool) (dir : Directory) : R (List (Bytes × FInfo)) := buildLoop lf dir 0 0 []
+
+/-- `dir.build_files(self.typ)` in the state monad -/
+def buildFilesM (dir : Directory) : M (List (Bytes × FInfo)) := fun d => (buildFiles d.labelFiles dir, d)
 
 /-- `directory::get_file` -/
 def getFile (name : Bytes) (files : List (Bytes × FInfo)) : Option FInfo :=
@@ -788,7 +799,7 @@ def gotoLoop : List Bytes → List (Bytes × FInfo) → FInfo → M (Option FInf
     | some curr =>
       if terminus || nullTerminus then pure (some parent, curr) else do
       let newDir ← getDirectory curr.cluster1
-      let files' ← M.lift (buildFiles newDir)
+      let files' ← buildFilesM newDir
       gotoLoop rest files' curr
 
 /-- `goto_path` → (maybe parent, file) -/
@@ -796,7 +807,7 @@ def gotoPath (path : Bytes) : M (Option FInfo × FInfo) := do
   let root ← getRootDir
   let nodes ← M.lift (normalizePath path)
   if nodes = [[]] then pure (none, FInfo.root) else
-  let files ← M.lift (buildFiles root)
+  let files ← buildFilesM root
   gotoLoop nodes files FInfo.root
 
 /-- run `m`; any error becomes `none` (the Rust's `if let Ok(..) = …`); state changes are kept -/
@@ -813,7 +824,7 @@ def prepareToWrite (path : Bytes) : M (Bytes × Option Nat × Nat × Directory) 
   | none => M.fail .fileNotFound
   | some (_, parent) =>
     let searchDir ← getDirectory parent.cluster1
-    let files ← M.lift (buildFiles searchDir)
+    let files ← buildFilesM searchDir
     match getFile newName files with
     | some _ => M.fail .duplicateFile
     | none =>
@@ -903,7 +914,7 @@ def okToRename (oldPath newName : Bytes) : M Unit := do
   | some (none, _) => M.fail .general
   | some (some parent, _) =>
     let searchDir ← getDirectory parent.cluster1
-    let files ← M.lift (buildFiles searchDir)
+    let files ← buildFilesM searchDir
     match getFile newName files with
     | some _ => M.fail .duplicateFile
     | none => pure ()
@@ -959,7 +970,7 @@ def delete (path : Bytes) : M Unit := do
       -- `is_root` (FAT12/16): no first cluster
       if fi.cluster1.isNone then M.fail .writeProtect else
       let dir ← getDirectory fi.cluster1
-      let files ← M.lift (buildFiles dir)
+      let files ← buildFilesM dir
       if files.length > 2 then M.fail .directoryNotEmpty else pure ()
     else pure ())
   match parent with
